@@ -166,6 +166,10 @@ LawLimbs == (LawAt /\ c.gi = 1) => \A a \in {0, 1, 5, FMAXS} : \A b \in {0, 1, 4
     /\ LEq(LAdd(SlackFor(15), SlackFor(17)), <<1, 0, 2, 512, 0, 0, 1>>)
     /\ LEq(LRatDown(a * CapD, CapD), LInt(a))
     /\ LLe(LRatDown(a * CapD + 1, CapD), LRatDown(a * CapD + 2, CapD)) /\ ~LLe(LRatDown(a * CapD + 2, CapD), LRatDown(a * CapD + 1, CapD))
+\* which catalogue lines fold back: exactly the Z, the hook, the loop and the multi line with a backward stroke
+LawFolded == (LawAt /\ c.gi = 1) =>
+    /\ Cardinality({gi \in 1..Len(Geoms) : Folded(Geoms[gi])}) = 4
+    /\ FoldedPath(<<<<5, 10>>, <<5, 30>>, <<5, 20>>, <<9, 20>>>>) /\ ~FoldedPath(<<<<5, 10>>, <<5, 30>>, <<5, 40>>, <<9, 20>>>>)
 LawMonoComparable == (LawAt /\ c.gi = 1) =>
                                   /\ MonoComparable(<<1, 8>>, <<2, 16>>) /\ MonoComparable(<<0, 0>>, <<0, 8>>) /\ MonoComparable(<<4, 8>>, <<4, 8>>)
                                   /\ ~MonoComparable(<<4, 8>>, <<4, 16>>) /\ ~MonoComparable(<<1000, 0>>, <<1004, 0>>)
